@@ -11,43 +11,82 @@
 #ifndef MEMSZ2
 #define MEMSZ2 16
 #endif
-constexpr int D = 2;
+#ifndef RDIM
+#define RDIM 2   // dimensionality of the view whose rows are the range: 2 (1-D proxy rows) or 3 (2-D proxy rows)
+#endif
+constexpr int D = RDIM; constexpr int NCMAX = RDIM == 2 ? NB : NB * NB;
 extern "C" { int g_m[MEMSZ2]; int g_old[MEMSZ2]; int g_o[MEMSZ2]; int g_oold[MEMSZ2]; }
 
-struct Row { int v[NB]; int n;
+struct Row { int v[NCMAX]; int n;
   friend bool operator==(Row const& a, Row const& b) { bool e = a.n == b.n;
 #pragma unroll
-    for(int c = 0; c < NB; ++c) if(c < a.n && c < b.n) e = e && a.v[c] == b.v[c];
+    for(int c = 0; c < NCMAX; ++c) if(c < a.n && c < b.n) e = e && a.v[c] == b.v[c];
     return e; }
   friend bool operator!=(Row const& a, Row const& b) { return !(a == b); }
   friend bool operator<(Row const& a, Row const& b) { int r = 0;
 #pragma unroll
-    for(int c = 0; c < NB; ++c) if(r == 0 && c < a.n && c < b.n) r = a.v[c] < b.v[c] ? -1 : (a.v[c] > b.v[c] ? 1 : 0);
+    for(int c = 0; c < NCMAX; ++c) if(r == 0 && c < a.n && c < b.n) r = a.v[c] < b.v[c] ? -1 : (a.v[c] > b.v[c] ? 1 : 0);
     return r != 0 ? r < 0 : a.n < b.n; }
 };
 struct Env { Spec<D> s; L n; Row ref[NB]; };
-static L addr_rc(Spec<D> const& s, L r, L c) { L idx[D] = {r, c}; return spec_addr(s, idx); }
+#if RDIM == 3 && defined(PERMUTED)
+// gap-free 3-D layouts whose dimension order is an arbitrary permutation (whole arrays seen through rotated / unrotated / transposed): symbolic extents, permutation, origin
+static Spec<3> source_spec(L memsz) {
+  Spec<3> s{}; L p = vf_range(0, 5); L n[3] = {vf_range(0, NB), vf_range(0, NB), vf_range(0, NB)};
+  int const order[6][3] = {{0, 1, 2}, {0, 2, 1}, {1, 0, 2}, {1, 2, 0}, {2, 0, 1}, {2, 1, 0}};   // order[p][k] = the k-th fastest dimension
+  L st = 1;
+#pragma unroll
+  for(int k = 0; k < 3; ++k) {
+#pragma unroll
+    for(int d = 0; d < 3; ++d) if(order[p][k] == d) { s.d[d].stride = st; st *= (n[d] > 0 ? n[d] : 1); }
+  }
+#pragma unroll
+  for(int d = 0; d < 3; ++d) { s.d[d].size = n[d]; s.d[d].first = 0; }
+  s.origin = vf_range(0, memsz - 1); vf_assume(s.origin + spec_hull(s) < memsz);
+  return s;
+}
+static Spec<3> source_spec_like(Spec<3> const& like, L memsz) {
+  Spec<3> s = source_spec(memsz);
+#pragma unroll
+  for(int d = 0; d < 3; ++d) vf_assume(s.d[d].size == like.d[d].size);
+  return s;
+}
+#else
+static Spec<D> source_spec(L memsz) { return arbitrary_spec<D>(0, 0, memsz); }
+static Spec<D> source_spec_like(Spec<D> const& like, L memsz) { return arbitrary_spec_like(like, 0, memsz); }
+#endif
+static L inner(Spec<D> const& s) { L p = 1;
+#pragma unroll
+  for(int k = 1; k < D; ++k) p *= s.d[k].size;
+  return p; }
+static L addr_rc(Spec<D> const& s, L r, L c) {   // row r, c-th element of the row in canonical order
+#if RDIM == 2
+  L idx[D] = {r, c};
+#else
+  L idx[D] = {r, c / s.d[2].size, c % s.d[2].size};
+#endif
+  return spec_addr(s, idx); }
 static Env setup(L minrows, int* mem = g_m, int* old = g_old) {
   Env e;
 #pragma unroll
   for(int c = 0; c < MEMSZ2; ++c) { int x = vf_nondet_int(); vf_assume(0 <= x && x <= 3); mem[c] = x; old[c] = x; }
-  e.s = arbitrary_spec<D>(0, 0, MEMSZ2); vf_assume(spec_injective(e.s)); vf_assume(e.s.d[0].size >= minrows && e.s.d[1].size >= 1);
+  e.s = source_spec(MEMSZ2); vf_assume(spec_injective(e.s)); vf_assume(e.s.d[0].size >= minrows && inner(e.s) >= 1);
   e.n = e.s.d[0].size;
 #pragma unroll
-  for(int r = 0; r < NB; ++r) { e.ref[r].n = static_cast<int>(e.s.d[1].size);
+  for(int r = 0; r < NB; ++r) { e.ref[r].n = static_cast<int>(inner(e.s));
 #pragma unroll
-    for(int c = 0; c < NB; ++c) e.ref[r].v[c] = (r < e.n && c < e.s.d[1].size) ? mem[addr_rc(e.s, r, c)] : -1; }
+    for(int c = 0; c < NCMAX; ++c) e.ref[r].v[c] = (r < e.n && c < inner(e.s)) ? mem[addr_rc(e.s, r, c)] : -1; }
   return e;
 }
 static Env setup2(Env const& e) {
   Env f;
 #pragma unroll
   for(int c = 0; c < MEMSZ2; ++c) { int x = vf_nondet_int(); vf_assume(0 <= x && x <= 3); g_o[c] = x; g_oold[c] = x; }
-  f.s = arbitrary_spec_like(e.s, 0, MEMSZ2); vf_assume(spec_injective(f.s)); f.n = e.n;
+  f.s = source_spec_like(e.s, MEMSZ2); vf_assume(spec_injective(f.s)); f.n = e.n;
 #pragma unroll
   for(int r = 0; r < NB; ++r) { f.ref[r].n = e.ref[r].n;
 #pragma unroll
-    for(int c = 0; c < NB; ++c) f.ref[r].v[c] = (r < f.n && c < f.s.d[1].size) ? g_o[addr_rc(f.s, r, c)] : -1; }
+    for(int c = 0; c < NCMAX; ++c) f.ref[r].v[c] = (r < f.n && c < inner(f.s)) ? g_o[addr_rc(f.s, r, c)] : -1; }
   return f;
 }
 static void check_rows(Env const& e, L upto, int const* mem = g_m) {
@@ -55,7 +94,7 @@ static void check_rows(Env const& e, L upto, int const* mem = g_m) {
 #pragma unroll
   for(int r = 0; r < NB; ++r)
 #pragma unroll
-    for(int c = 0; c < NB; ++c) if(r < upto && c < e.s.d[1].size) same = same && mem[addr_rc(e.s, r, c)] == e.ref[r].v[c];
+    for(int c = 0; c < NCMAX; ++c) if(r < upto && c < inner(e.s)) same = same && mem[addr_rc(e.s, r, c)] == e.ref[r].v[c];
   vf_assert(same, "viewed rows equal the result on independent value rows");
 }
 static void check_outside(Env const& e, int const* mem = g_m, int const* old = g_old) {
@@ -63,20 +102,20 @@ static void check_outside(Env const& e, int const* mem = g_m, int const* old = g
   if(!spec_designates(e.s, c, i)) vf_assert(mem[c] == old[c], "elements outside the view are left unchanged");
 }
 static void check_contents(Env const& e, int const* mem = g_m, int const* old = g_old) { check_rows(e, e.n, mem); check_outside(e, mem, old); }
-#define RANGE_OF(e, mem) auto v_ = view_of<2, int>((e).s, mem, MEMSZ2); auto first = v_.begin(); auto last = v_.end()
-#define CRANGE_OF(e, mem) auto const v_ = view_of<2, int>((e).s, mem, MEMSZ2); auto first = v_.begin(); auto last = v_.end()
+#define RANGE_OF(e, mem) auto v_ = view_of<D, int>((e).s, mem, MEMSZ2); auto first = v_.begin(); auto last = v_.end()
+#define CRANGE_OF(e, mem) auto const v_ = view_of<D, int>((e).s, mem, MEMSZ2); auto first = v_.begin(); auto last = v_.end()
 
 VF_HARNESS(rows_reverse) { Env e = setup(0); { RANGE_OF(e, g_m); std::reverse(first, last); } std::reverse(e.ref, e.ref + e.n); check_contents(e); vf_reach("rows_reverse"); }
 VF_HARNESS(rows_swap_ranges) {
   Env e = setup(0); Env f = setup2(e);
-  { RANGE_OF(e, g_m); auto w_ = view_of<2, int>(f.s, g_o, MEMSZ2); std::swap_ranges(first, last, w_.begin()); }
+  { RANGE_OF(e, g_m); auto w_ = view_of<D, int>(f.s, g_o, MEMSZ2); std::swap_ranges(first, last, w_.begin()); }
 #pragma unroll
   for(int r = 0; r < NB; ++r) { Row t = e.ref[r]; e.ref[r] = f.ref[r]; f.ref[r] = t; }
   check_contents(e); check_contents(f, g_o, g_oold); vf_reach("rows_swap_ranges");
 }
 VF_HARNESS(rows_copy_move_backward) {
   Env e = setup(0); Env f = setup2(e); L which = vf_range(0, 2); L pos;
-  { CRANGE_OF(e, g_m); auto w_ = view_of<2, int>(f.s, g_o, MEMSZ2); auto dfirst = w_.begin(); auto dlast = w_.end();
+  { CRANGE_OF(e, g_m); auto w_ = view_of<D, int>(f.s, g_o, MEMSZ2); auto dfirst = w_.begin(); auto dlast = w_.end();
     if(which == 0) { pos = std::copy(first, last, dfirst) - dfirst; } else if(which == 1) { pos = dlast - std::copy_backward(first, last, dlast); } else { pos = std::move(first, last, dfirst) - dfirst; } }
   vf_assert(pos == e.n, "returns the end of the destination range");
 #pragma unroll
@@ -91,14 +130,14 @@ VF_HARNESS(rows_shift_right) {   // copy_backward(first, last - 1, last) within 
 }
 VF_HARNESS(rows_fill) {   // fill every row with one row of another view
   Env e = setup(0); Env f = setup2(e); vf_assume(f.n >= 1);
-  { RANGE_OF(e, g_m); auto const w_ = view_of<2, int>(f.s, g_o, MEMSZ2); std::fill(first, last, w_[0]); }
+  { RANGE_OF(e, g_m); auto const w_ = view_of<D, int>(f.s, g_o, MEMSZ2); std::fill(first, last, w_[0]); }
 #pragma unroll
   for(int r = 0; r < NB; ++r) e.ref[r] = f.ref[0];
   check_contents(e); check_contents(f, g_o, g_oold); vf_reach("rows_fill");
 }
 VF_HARNESS(rows_queries) {   // find (a row equal to a given row), is_sorted, equal, lexicographical_compare: non-modifying
   Env e = setup(0); Env f = setup2(e); vf_assume(f.n >= 1); L p1; bool so, eq, lt;
-  { CRANGE_OF(e, g_m); auto const w_ = view_of<2, int>(f.s, g_o, MEMSZ2);
+  { CRANGE_OF(e, g_m); auto const w_ = view_of<D, int>(f.s, g_o, MEMSZ2);
     p1 = std::find(first, last, w_[0]) - first; so = std::is_sorted(first, last);
     eq = std::equal(first, last, w_.begin()); lt = std::lexicographical_compare(first, last, w_.begin(), w_.end()); }
   vf_assert(p1 == std::find(e.ref, e.ref + e.n, f.ref[0]) - e.ref, "find returns the same position");
@@ -109,7 +148,7 @@ VF_HARNESS(rows_queries) {   // find (a row equal to a given row), is_sorted, eq
 }
 VF_HARNESS(rows_remove_unique) {
   Env e = setup(0); Env f = setup2(e); vf_assume(f.n >= 1); L which = vf_range(0, 1); L pos, rpos;
-  { RANGE_OF(e, g_m); auto const w_ = view_of<2, int>(f.s, g_o, MEMSZ2);
+  { RANGE_OF(e, g_m); auto const w_ = view_of<D, int>(f.s, g_o, MEMSZ2);
     if(which == 0) { pos = std::remove(first, last, w_[0]) - first; } else { pos = std::unique(first, last) - first; } }
   if(which == 0) { rpos = std::remove(e.ref, e.ref + e.n, f.ref[0]) - e.ref; } else { rpos = std::unique(e.ref, e.ref + e.n) - e.ref; }
   vf_assert(pos == rpos, "same new end");
@@ -117,7 +156,7 @@ VF_HARNESS(rows_remove_unique) {
 }
 VF_HARNESS(rows_partition) {
   Env e = setup(0); L pos;
-  { RANGE_OF(e, g_m); pos = std::partition(first, last, [](auto const& row) { return row[0] < 2; }) - first; }
+  { RANGE_OF(e, g_m); pos = std::partition(first, last, [](auto const& row) { return *row.elements().begin() < 2; }) - first; }
   L cnt = 0; bool ok = true;
 #pragma unroll
   for(int r = 0; r < NB; ++r) if(r < e.n) cnt += e.ref[r].v[0] < 2;
@@ -131,7 +170,7 @@ VF_HARNESS(rows_partition) {
 #pragma unroll
     for(int q = 0; q < NB; ++q) if(q < e.n) { Row now; now.n = e.ref[r].n;
 #pragma unroll
-        for(int c = 0; c < NB; ++c) now.v[c] = c < now.n ? g_m[addr_rc(e.s, q, c)] : -1;
+        for(int c = 0; c < NCMAX; ++c) now.v[c] = c < now.n ? g_m[addr_rc(e.s, q, c)] : -1;
         a += now == e.ref[r]; b += e.ref[q] == e.ref[r]; }
     perm = perm && a == b; }
   vf_assert(perm, "the rows are a permutation of the original rows");
